@@ -90,3 +90,10 @@ Proof.
     + apply Permutation_app_head. exact IH.
     + apply flat_map_app_perm.
 Qed.
+
+Lemma nth_firstn_lt {A} (l : list A) n i d : i < n -> nth i (firstn n l) d = nth i l d.
+Proof.
+  revert l i. induction n as [|n IH]; intros l i H; [lia|].
+  destruct l as [|x l]; [destruct i; reflexivity|].
+  destruct i as [|i]; [reflexivity|]. cbn [firstn nth]. apply IH. lia.
+Qed.
